@@ -15,6 +15,7 @@ import KyupyVerif.Drv.Grid
 import KyupyVerif.Drv.WaveIO
 import KyupyVerif.Drv.Cycle
 import KyupyVerif.Drv.CircNet
+import KyupyVerif.Drv.FormatEquiv
 import KyupyVerif.Drv.VerilogLib
 import KyupyVerif.Drv.DataPath
 import KyupyVerif.Drv.Callback
@@ -45,6 +46,7 @@ def extHandlers : List (String → List String → Option String) := [
   KV.Drv.WaveIO.handle,
   KV.Drv.Cycle.handle,
   KV.Drv.CircNet.handle,
+  KV.Drv.FormatEquiv.handle,
   KV.Drv.VerilogLib.handle,
   KV.Drv.DataPath.handle,
   KV.Drv.Callback.handle,
